@@ -334,6 +334,7 @@ pub fn worker(w: &mut Worker) {
                 }
             }
         }
+        chars.extend(crate::util::invisible_chars().into_iter().filter(|c| !matches!(c, '\n' | '\r')));
         chars.sort();
         chars.dedup();
         let styles: Vec<Style> = [false, true]
